@@ -156,26 +156,62 @@ def c04d(ctx, tu):
 
 def c04e(ctx, tu):
     """decommission: per element mock_destroyed() then unlink(), iterator advanced before both"""
+    from engine.auto import Explorer, fmt_trace
+
+    def classify(fn, ev, env):
+        if ev["e"] == "incdec":
+            return ("sym", "advance")
+        if ev["e"] != "call":
+            return None
+        n = qe(ev)
+        if n == "trompeloeil::list::iterator::operator++":
+            return ("sym", "advance")
+        if n == A["unlink"]:
+            return ("sym", "unlink")
+        if n == "trompeloeil::list_elem::is_linked":
+            return ("sym", "linked?")
+        if n in (A["send_report"], A["send"]) or lib.user_callback(tu, ev):
+            return ("skip",)
+        return None
+
+    def delta(q, sym):
+        adv, unl, bad = q
+        if sym == "advance":
+            if adv and not unl:
+                bad = bad or "an element is passed without being unlinked"
+            return (True, False, bad)
+        if sym == "unlink":
+            if not adv:
+                bad = bad or "an element is unlinked before the iterator has moved past it"
+            if unl:
+                bad = bad or "an element is unlinked twice"
+            return (adv, True, bad)
+        if sym == "linked?":
+            if unl:
+                bad = bad or "the end-of-life decision (which asks is_linked) is taken after the element was unlinked"
+            return (adv, unl, bad)
+        return None
+
+    ex = Explorer(tu, classify, delta=delta)
     for fn in tu.need(A["decommission"], 3):
         ls = cfg.loops(fn)
         ok = len(ls) == 1
         why = "expected one loop"
         if ok:
             l = ls[0]
-            seq = []
-            for bid in sorted(l["body"], reverse=True):
-                for e in fn.blocks[bid]["ev"]:
-                    if e["e"] == "call":
-                        n = qe(e)
-                        if n == "trompeloeil::list::iterator::operator++":
-                            seq.append("advance")
-                        elif n == "trompeloeil::call_matcher_base::mock_destroyed":
-                            seq.append("mock_destroyed")
-                        elif n == A["unlink"]:
-                            seq.append("unlink")
-            ok = seq == ["advance", "mock_destroyed", "unlink"] and not l["exit_edges"]
-            why = "per element the order must be: advance iterator, mock_destroyed(), unlink(), for every element; found %s%s" % (
-                seq, " with an early exit" if l["exit_edges"] else "")
+            exits, terms = ex.explore(fn, (False, False, None))
+            bad = None
+            for (adv, unl, flag), tr in exits.items():
+                if flag:
+                    bad = (flag, tr)
+                elif adv and not unl:
+                    bad = ("the last element is passed without being unlinked", tr)
+            if bad is None and l["exit_edges"]:
+                bad = ("the walk over the expectations can be left early", None)
+            if bad is None and not any(unl for (adv, unl, flag) in exits):
+                bad = ("no element is ever unlinked", None)
+            ok = bad is None
+            why = "" if ok else "per element: advance the iterator, report what is pending (while still linked), unlink - %s" % bad[0]
         ctx.ob("C04.e", A["decommission"], ok, pattern=fn.pat, unit=tu.name, inst=fn.q, detail="" if ok else why)
     # both lists of a mock function are decommissioned when it dies
     for fn in tu.need("trompeloeil::expectations::~expectations", 3):
